@@ -42,13 +42,13 @@ static void check(M& m, const Model& md)
   }
   vf_assert(i == md.n, "iteration shorter than model");
 }
-static void put(M& m, Model& md) { int k = (int)vf_pick(4), v = (int)vf_u32(); m.insert(Tracked(k), Tracked(v)); md.put(k, v); }
+static void put(M& m, Model& md) { int k = (int)vf_pick(3), v = (int)vf_u32(); m.insert(Tracked(k), Tracked(v)); md.put(k, v); }
 
 extern "C" int history()
 {
   {
     M a; Model ma;
-    unsigned na = vf_pick(4); for(unsigned i = 0; i < na; ++i) put(a, ma);
+    unsigned na = vf_pick(3); for(unsigned i = 0; i < na; ++i) put(a, ma);
     for(unsigned s = 0; s < VF_K; ++s)
     {
       unsigned op = vf_pick(ma.n ? 9 : 5);
@@ -63,7 +63,7 @@ extern "C" int history()
                 check(b, keep); break; }
       case 4: { M b; Model mb; put(b, mb); b = a; check(b, ma); a.clear(); check(b, ma); a = b; check(a, ma); break; }
       case 5: { unsigned p = vf_pick(ma.n); M::Iterator it = a.begin(); for(unsigned i = 0; i < p; ++i) ++it; a.remove(it); ma.removeAt(p); break; }
-      case 6: { int k = (int)vf_pick(4); a.remove(Tracked(k)); unsigned lo = ma.lower(k), hi = ma.upper(k);
+      case 6: { int k = (int)vf_pick(3); a.remove(Tracked(k)); unsigned lo = ma.lower(k), hi = ma.upper(k);
                 if(lo < hi)
                 { // MultiMap removes one (unspecified) of the equal keys: find the one that went away
                   unsigned gone = hi - 1; unsigned i = 0;
@@ -71,7 +71,7 @@ extern "C" int history()
                   ma.removeAt(gone);
                 }
                 break; }
-      case 8: { a.clear(); ma.n = 0; int k = (int)vf_pick(4), v = (int)vf_u32(); a.insert(a.end(), Tracked(k), Tracked(v)); ma.put(k, v); break; }   // clear, then load with the end() hint
+      case 8: { a.clear(); ma.n = 0; int k = (int)vf_pick(3), v = (int)vf_u32(); a.insert(a.end(), Tracked(k), Tracked(v)); ma.put(k, v); break; }   // clear, then load with the end() hint
       case 7: { if(vf_pick(2)) { a.removeFront(); ma.removeAt(0); } else { a.removeBack(); ma.removeAt(ma.n - 1); } break; }
       }
       check(a, ma);
